@@ -42,8 +42,8 @@ func (p *Prop) SafeRun(c interface{}, s *Stats) (err error) {
 
 func trimStack(b []byte) string {
 	lines := strings.Split(string(b), "\n")
-	if len(lines) > 40 {
-		lines = lines[:40]
+	if len(lines) > 24 {
+		lines = lines[:24]
 	}
 	return strings.Join(lines, "\n")
 }
